@@ -10,6 +10,13 @@ BASELINE_OFF = ("cd /repo && env -u PYOPENAPI_GEN_VERIF /venv/bin/python -m pyte
 
 # id -> (category, technique, level text, level note, design ref)
 CHECKS = {
+    "C11": ("exploration", "runtime monitoring: history workload with a fresh-interpreter import probe and needed-symbols check after every step; recording postcondition on _update_registry",
+            "Histories of generate actions (client, document with a given declared error set, force on/off; with repetition and with documents changing under a "
+            "client) over 3 clients into one project with a shared core at package depth 1-4. After EVERY step a fresh interpreter imports every module of every "
+            "client generated so far and resolves each name those clients import from the core (collected by ast). Quick: random length-4 histories; thorough: all "
+            "two-step histories x 4 depths plus random length 5-6.",
+            "Non-force steps that raise are visible failures and not judged; documents are minimal (one operation) with varying error sets.",
+            "DESIGN.md §4 C11"),
     "C09": ("exploration", "runtime monitoring: byte-level differential between real generations (hash seed / process / clock / root), before-after snapshots with mtime_ns, tampering, recording wrapper on _show_diffs",
             "Each document is generated in fresh processes under several PYTHONHASHSEED values, in a warm process after other documents, with the clock shifted and "
             "into another root: all trees must be byte-identical (sha256 per file). A non-force re-run over the fresh output must succeed and leave bytes and "
